@@ -7,6 +7,8 @@ import (
 	"bufio"
 	"fmt"
 	"go/ast"
+	"go/build"
+	"go/importer"
 	"go/parser"
 	"go/token"
 	"go/types"
@@ -14,6 +16,7 @@ import (
 	"path/filepath"
 	"sort"
 	"strings"
+	"sync"
 
 	"golang.org/x/tools/go/packages"
 )
@@ -38,7 +41,7 @@ type Program struct {
 	Order    []string                  // topological order (deps first) of workspace packages
 	external map[string]*types.Package // non-workspace packages by path (from export data)
 	Mutation string                    // description when this is a mutated program
-	Texts    map[string][]byte // in-memory content of non-Go files (specifications) replaced by a mutation; absolute path -> content
+	Texts    map[string][]byte         // in-memory content of non-Go files (specifications) replaced by a mutation; absolute path -> content
 }
 
 // Sorted returns packages sorted by path.
@@ -243,17 +246,43 @@ type mapImporter struct {
 }
 
 func (m mapImporter) Import(path string) (*types.Package, error) {
-	if p, ok := m.ws[path]; ok {
+	if p, ok := m.ws[path]; ok && p.Types != nil {
 		return p.Types, nil
 	}
-	if p, ok := m.ext[path]; ok {
+	if p, ok := m.ext[path]; ok && p != nil && p.Complete() {
 		return p, nil
 	}
 	if path == "unsafe" {
 		return types.Unsafe, nil
 	}
+	// a package the unmutated program did not import (a mutant that adds `import "sync/atomic"`): standard-library
+	// packages are type-checked from source
+	if !strings.Contains(strings.SplitN(path, "/", 2)[0], ".") {
+		srcImporterOnce.Do(func() {
+			if build.Default.GOROOT == "" || !dirExists(filepath.Join(build.Default.GOROOT, "src")) {
+				build.Default.GOROOT = goroot1268
+			}
+			srcImporter = importer.ForCompiler(token.NewFileSet(), "source", nil)
+		})
+		srcImporterMu.Lock()
+		defer srcImporterMu.Unlock()
+		if p, err := srcImporter.Import(path); err == nil {
+			return p, nil
+		}
+	}
 	return nil, fmt.Errorf("package %q not available to the in-memory importer", path)
 }
+
+func dirExists(p string) bool {
+	st, err := os.Stat(p)
+	return err == nil && st.IsDir()
+}
+
+var (
+	srcImporter     types.Importer
+	srcImporterOnce sync.Once
+	srcImporterMu   sync.Mutex
+)
 
 func newInfo() *types.Info {
 	return &types.Info{
